@@ -15,7 +15,6 @@ import (
 	"github.com/buildbarn/bb-storage/pkg/digest"
 	"github.com/buildbarn/bb-storage/pkg/eviction"
 	"golang.org/x/sync/semaphore"
-	"google.golang.org/grpc/codes"
 )
 
 // replicator kinds: local | noop are modelled; metrics wraps local without
@@ -207,5 +206,3 @@ func prefOf(res opResult) string {
 	}
 	return "A"
 }
-
-var _ = codes.OK
